@@ -68,6 +68,7 @@ type drvClient struct {
 	logMu sync.Mutex
 	calls int
 	race  bool
+	hung  bool // the last call was ended by the watchdog
 }
 
 func driverPath(race bool) string {
@@ -150,6 +151,22 @@ func (d *drvClient) diag() string {
 // call sends one request. died=true: the driver process terminated (panic, fatal error, race report).
 func (d *drvClient) call(req *drvRequest) (resp drvResponse, died bool, diag string) {
 	d.calls++
+	// watchdog: a request whose workers never come back (a worker blocked for good) would hang the check; after
+	// three minutes the driver is killed and the call reported as died with that explanation
+	d.hung = false
+	done := make(chan struct{})
+	defer close(done)
+	go func() {
+		select {
+		case <-done:
+		case <-time.After(180 * time.Second):
+			d.hung = true
+			d.logMu.Lock()
+			d.log.WriteString("\nHARNESS WATCHDOG: the driver did not answer the request within 180 s (workers of the phase never finished); killed\n")
+			d.logMu.Unlock()
+			d.cmd.Process.Kill()
+		}
+	}()
 	b, _ := json.Marshal(req)
 	if _, err := d.in.Write(append(b, '\n')); err != nil {
 		d.cmd.Wait()
